@@ -95,6 +95,23 @@ struct OptOut {
 #endif
 };
 
+// distinguishes construction from a non-const lvalue, a const lvalue and an rvalue (std::construct_at forwards the value category)
+struct ThreeWay {
+  ThreeWay();
+  ThreeWay(ThreeWay &);
+  ThreeWay(const ThreeWay &);
+  ThreeWay(ThreeWay &&) noexcept;
+  ~ThreeWay();
+  int v;
+};
+// trivially copyable, with a perfect-forwarding constructor that must win for non-const lvalues
+struct Greedy {
+  Greedy() = default;
+  template <class U>
+  Greedy(U &&);
+  int v;
+};
+
 // move only, relocatable by declaration
 struct MoveOnly {
   using trivially_relocatable = std::true_type;
